@@ -138,7 +138,9 @@ class PrefixedNameToken(XPathToken):
         # Change bind powers if it cannot be a namespace related token
         if self.is_spaced():
             self.lbp = self.rbp = 0
-        elif self.parser.token.symbol not in ('*', '(name)', 'array'):
+        elif self.parser.token.symbol not in ('*', '(name)', 'array') and \
+                self.parser.name_pattern.match(self.parser.token.symbol) is None:
+            # a keyword (div, and, union, for, ...) can be the prefix of a QName
             self.lbp = self.rbp = 0
 
     def __str__(self) -> str:
